@@ -627,6 +627,7 @@ func c09Redefinitions(c *Ctx) {
 // untyped constant or nil passed / returned takes the underlying type. split: the types live in an imported package and
 // are spelled lib.Lv in the signatures.
 func c09NamedTypes(split bool) *Prog {
+	c09Lit1 := &Func{Name: "c09lit1", Params: []string{"a"}, PTypes: []*Ty{TInt}, Results: []*Ty{TInt}, Body: []*S{ret(bin("*", TInt, v("a", TInt), v("a", TInt)))}}
 	id := "c09/named-types"
 	if split {
 		id += "-qualified"
@@ -647,6 +648,18 @@ func c09NamedTypes(split bool) *Prog {
 		&Func{Name: "count", Params: []string{"l"}, PTypes: []*Ty{tLi}, Results: []*Ty{TInt}, Body: []*S{ret(lenOf(v("l", tLi)))}},
 		&Func{Name: "blank", Params: []string{"_", "_", "x", "_"}, PTypes: []*Ty{TInt, TString, TInt, TInt}, Results: []*Ty{TInt}, Body: []*S{dcl("y", v("x", TInt)), ret(bin("*", TInt, v("y", TInt), lit(TInt, 2)))}},
 		&Func{Name: "blank2", Params: []string{"_", "_"}, PTypes: []*Ty{TInt, TInt}, Results: []*Ty{TInt}, Body: []*S{ret(lit(TInt, 1))}},
+		// a spread slice is passed through as it is: the callee writes to the caller's elements, an empty slice stays non-nil
+		&Func{Name: "zero", Params: []string{"xs"}, PTypes: []*Ty{SliceOf(TInt)}, Variadic: true, Body: []*S{
+			{K: "range", X: v("xs", SliceOf(TInt)), KName: "i", VName: "", Body: []*S{asg(&E{K: "index", Ty: TInt, X: v("xs", SliceOf(TInt)), I: v("i", TInt)}, lit(TInt, 0))}}}},
+		&Func{Name: "isnil", Params: []string{"xs"}, PTypes: []*Ty{SliceOf(TInt)}, Variadic: true, Results: []*Ty{TBool}, Body: []*S{
+			ret(bin("==", TBool, v("xs", SliceOf(TInt)), &E{K: "zero", Ty: SliceOf(TInt)}))}},
+		&Func{Name: "setFirst", Params: []string{"k", "xs"}, PTypes: []*Ty{TInt, SliceOf(TInt)}, Variadic: true, Results: []*Ty{TInt}, Body: []*S{
+			asg(&E{K: "index", Ty: TInt, X: v("xs", SliceOf(TInt)), I: lit(TInt, 0)}, v("k", TInt)), ret(lenOf(v("xs", SliceOf(TInt))))}},
+		// a function literal with another number of results, then results forwarded from a call
+		&Func{Name: "two", Params: []string{"a"}, PTypes: []*Ty{TInt}, Results: []*Ty{TInt, TInt}, Body: []*S{ret(v("a", TInt), bin("+", TInt, v("a", TInt), lit(TInt, 1)))}},
+		&Func{Name: "afterLit", Params: []string{"n"}, PTypes: []*Ty{TInt}, Results: []*Ty{TInt, TInt}, Body: []*S{
+			dcl("sq", &E{K: "funclit", Ty: FuncTy(&FuncSig{Params: []*Ty{TInt}, Results: []*Ty{TInt}}), Fn: "c09lit1", Lit: c09Lit1}),
+			{K: "return", NRes: 2, Exprs: []*E{call("two", nil, 2, &E{K: "callv", Ty: TInt, NRes: 1, X: v("sq", FuncTy(&FuncSig{Params: []*Ty{TInt}, Results: []*Ty{TInt}})), Args: []*E{v("n", TInt)}})}}}},
 		&Func{Name: "spread", Params: []string{"xs"}, PTypes: []*Ty{SliceOf(tCs)}, Variadic: true, Results: []*Ty{tCs}, Body: []*S{
 			ret(bin("+", tCs, &E{K: "index", Ty: tCs, X: v("xs", SliceOf(tCs)), I: lit(TInt, 0)}, &E{K: "index", Ty: tCs, X: v("xs", SliceOf(tCs)), I: lit(TInt, 1)}))}},
 	)
@@ -667,8 +680,17 @@ func c09NamedTypes(split bool) *Prog {
 		pr(sS("appended"), lenOf(v("x", tLi)), &E{K: "index", Ty: TInt, X: v("x", tLi), I: lit(TInt, 0)}),
 		pr(sS("spread"), call("spread", tCs, 1, lit(tCs, 200), lit(tCs, 100))),
 		pr(sS("blank"), call("blank", TInt, 1, lit(TInt, 1), sS("s"), lit(TInt, 21), lit(TInt, 4)), call("blank2", TInt, 1, lit(TInt, 4), lit(TInt, 5))),
+		dcl("sp", &E{K: "slicelit", Ty: SliceOf(TInt), Args: []*E{lit(TInt, 1), lit(TInt, 2), lit(TInt, 3)}}),
+		{K: "expr", E: &E{K: "call", Fn: "zero", NRes: 0, Args: []*E{v("sp", SliceOf(TInt))}, Spread: true}},
+		pr(sS("zeroed"), &E{K: "index", Ty: TInt, X: v("sp", SliceOf(TInt)), I: lit(TInt, 0)}, &E{K: "index", Ty: TInt, X: v("sp", SliceOf(TInt)), I: lit(TInt, 2)}),
+		pr(sS("setFirst"), &E{K: "call", Fn: "setFirst", Ty: TInt, NRes: 1, Args: []*E{lit(TInt, 9), v("sp", SliceOf(TInt))}, Spread: true}, &E{K: "index", Ty: TInt, X: v("sp", SliceOf(TInt)), I: lit(TInt, 0)}),
+		dcl("em", &E{K: "slicelit", Ty: SliceOf(TInt)}),
+		pr(sS("isnil"), &E{K: "call", Fn: "isnil", Ty: TBool, NRes: 1, Args: []*E{v("em", SliceOf(TInt))}, Spread: true}, &E{K: "call", Fn: "isnil", Ty: TBool, NRes: 1}),
+		{K: "decl", Names: []string{"r1", "r2"}, Exprs: []*E{call("afterLit", nil, 2, lit(TInt, 3))}},
+		pr(sS("afterLit"), v("r1", TInt), v("r2", TInt)),
 	}
 	p.Funcs = append(p.Funcs, &Func{Name: "Main", Body: body})
+	p.Lits = append(p.Lits, c09Lit1)
 	if split {
 		p.Split = &pkgSplit{lib: map[string]bool{"Lv": true, "Cs": true, "Li": true, "keep": true}, vars: map[string]bool{}, path: "app/lib"}
 	}
